@@ -1283,16 +1283,35 @@ def run_blob_case(rng, tmp):
     k = [0]
     FAKE.queue = []
 
+    def all_files(st):
+        """every file (also under tmp/ and savepoint directories) in the blob directories of `st` and below"""
+        res = []
+        for bd in blobdirs_of(st):
+            for root, _, files in os.walk(bd):
+                res += [os.path.join(root, f) for f in files if f != '.layout']
+        return sorted(res)
+    mid = [None]
+
     def txn(st, writes, abort=False):
         k[0] += 1
         tid = real_tid(UNIT * k[0])
         t = TransactionMetaData()
+        lower_before = all_files(st.base) if isinstance(st, DemoStorage) else None
         st.tpc_begin(t, tid)
         for oid, text in writes:
-            fn = os.path.join(st.temporaryDirectory(), 'up-%d-%d' % (k[0], oid))
+            tmpd = st.temporaryDirectory()
+            fn = os.path.join(tmpd, 'up-%d-%d' % (k[0], oid))
             with open(fn, 'wb') as f:
                 f.write(text)
+            if lower_before is not None and all_files(st.base) != lower_before:
+                # an uncommitted working copy must not sit in a blob directory of a layer below
+                mid[0] = ('while a transaction is open, the uncommitted blob working copy %s lies inside the blob '
+                          'directory of the storage below the demo storage (temporaryDirectory() = %s)'
+                          % (os.path.basename(fn), tmpd))
             st.storeBlob(p64(oid), cur.get(oid, z64), rec, fn, '', t)
+            if lower_before is not None and mid[0] is None and all_files(st.base) != lower_before:
+                mid[0] = 'storeBlob through the demo storage changed the blob directory of the storage below it'
+            lower_before = all_files(st.base) if isinstance(st, DemoStorage) else None
         if abort:
             st.tpc_abort(t)
             log.append('abort %s' % [w[0] for w in writes])
@@ -1359,7 +1378,7 @@ def run_blob_case(rng, tmp):
                 new = lower.push() if isinstance(lower, DemoStorage) else DemoStorage(base=lower)
             log.append('push %s' % ck_kind)
             stack.append(new)
-            if rng.random() < 0.8:
+            if rng.random() < 0.5:
                 # the very FIRST blob read through a fresh layer (implicit changes are made blob-capable by
                 # this call) must already fall through to the layers below
                 first = rng.choice(['load', 'open'])
@@ -1373,7 +1392,7 @@ def run_blob_case(rng, tmp):
                 if rng.random() < 0.4:
                     oids.append(u64(new.new_oid()))
                 gone += txn(new, [(o, b'L%d-%d-%d' % (level, o, k[0])) for o in oids], abort=rng.random() < 0.25)
-                bad = bad or check(new, gone)
+                bad = bad or mid[0] or check(new, gone)
                 if dump(lower) != snaps[-1]:
                     bad = bad or 'the storage below a demo storage changed while blobs were stored through it'
                 if bad:
